@@ -65,6 +65,11 @@ func main() {
 			line = strings.TrimRight(line, "\n")
 			out.WriteString(guard(func() string { return h(line) }))
 			out.WriteByte('\n')
+			if mustRestart {
+				out.Flush()
+				cleanupC16()
+				os.Exit(3)
+			}
 		}
 		if err != nil {
 			break
